@@ -93,6 +93,9 @@ def parser(b, first_token=None, in_routine=None, in_matrix=None, loop_depth='any
         ls = PyList([loop_ctx(I, 'open_loops', i) for i in range(loop_depth)])
     ls.is_deque = True
     ctx.attrs['_loop_stack'] = ls
+    if '_nesting' in Pr.attrs:
+        Pr.attrs['_nesting'] = b.sym('int', 'nesting')
+        b.between(Pr.attrs['_nesting'], 0, 10 ** 6)
     b.ghost('pos', 0)
     b.ghost('errs', 0)
     b.ghost('symbols', {})
@@ -281,6 +284,8 @@ def _phrase_effect(tag, min_len=0, code_arg=None):
         p = p.attrs.get('parser', p)
         ok = I.branch(I.fresh('bool', 'ok_' + tag).t, 'phrase-ok')
         env.vars['__ok__'] = ok
+        if isinstance(p, PyObj) and '_nesting' in p.attrs:
+            I.ghost['nesting_at_last_phrase'] = p.attrs['_nesting']
         if ok:
             cg = env.vars.get(code_arg) if code_arg else None
             cg = cg or p.attrs['_code_gen']
